@@ -185,7 +185,7 @@ pub fn live_pass(rep: &Report, prop: &str, oracle: Oracle, slots: usize, depth: 
                         acc.transitions += hist.len() as u64 + pk.len() as u64;
                         acc.calls += hist.len() as u64 + pk.len() as u64;
                         d.reset_last_label();
-                        let prov = catch(|| d.provision_storage(vec![0u8; 16].into_boxed_slice()));
+                        let prov = catch(|| d.provision_storage(vec![0u8; 4].into_boxed_slice()));
                         match prov {
                             Ok(Ok(())) => {}
                             Ok(Err(e)) if mem_err_kind(&e).0 == "StorageOverflow" => {}
